@@ -106,7 +106,7 @@ def r14a(R):
             'the converter is looked up with the modes in the wrong order')
 
 
-@rule('R14.b', ('C14',), 'a mode switch rewrites exactly the documented '
+@rule('R14.b', ('C14', 'C01'), 'a mode switch rewrites exactly the documented '
       'settings, in the right order', floor=7,
       decides='time and duration change only when raw is involved; a switch '
               'to the mode in force changes nothing; the colour is re-expressed '
